@@ -932,6 +932,41 @@ func c03vAspect(impl, spec string, valu bool) string {
 	return "other"
 }
 
+// c03vOnlyZeroSign reports whether two deltas differ only in cells whose values are +0 / -0.
+func c03vOnlyZeroSign(impl, spec string) bool {
+	pm := func(s string) map[string]string {
+		m := map[string]string{}
+		for _, t := range strings.Fields(s) {
+			if kv := strings.SplitN(t, "=", 2); len(kv) == 2 {
+				m[kv[0]] = kv[1]
+			}
+		}
+		return m
+	}
+	a, b := pm(impl), pm(spec)
+	z := func(v string, ok bool) bool { return !ok || v == "0" || v == "80000000" }
+	n := 0
+	for k, v := range a {
+		w, ok := b[k]
+		if ok && w == v {
+			continue
+		}
+		if !z(v, true) || !z(w, ok) {
+			return false
+		}
+		n++
+	}
+	for k, w := range b {
+		if _, ok := a[k]; !ok {
+			if !z(w, true) {
+				return false
+			}
+			n++
+		}
+	}
+	return n > 0
+}
+
 func c03vFeature(c *c03vCase) string {
 	for _, k := range []string{"sdwa", "clamp", "inlinef64", "nan", "neginline", "signedzero", "mod", "negoffset"} {
 		if c.feat[k] {
@@ -1080,6 +1115,9 @@ func runC03V(r *Run, rng *Rng, replay string) {
 		default:
 			// whole-form defects (SDWA selection, CLAMP, 64-bit inline float constants) are keyed by the form alone
 			ft := c03vFeature(c)
+			if ft == "" && c03vOnlyZeroSign(x.impl, spec[i]) {
+				ft = ".signedzero" // e.g. an inline constant 0 against a -0 register value
+			}
 			sig := fmt.Sprintf("C03.%s.%s.%s_%d.%s%s", c.op.arch, c.op.name, c.op.format, c.op.op, c03vAspect(x.impl, spec[i], valu), ft)
 			if ft == ".sdwa" || ft == ".clamp" || ft == ".inlinef64" {
 				sig = fmt.Sprintf("C03.%s.%s.%s_%d%s", c.op.arch, c.op.name, c.op.format, c.op.op, ft)
